@@ -53,7 +53,7 @@ def main():
     sk = vlib.tlc("MCGenerate", "Generate_skip.cfg", workers=8, timeout=1200, xmx="8g")
     if not sk.ok:
         raise vlib.InfraError("Generate model violates %s on the skip universe" % sk.violated)
-    ck.add_tlc(sk, "Generate_skip (31 directory paths + forest)")
+    ck.add_tlc(sk, "Generate_skip (31 directory paths, each alone)")
     for name, expect in (("Generate_neg_mutex.cfg", "NoDataRace"), ("Generate_neg_errs.cfg", "NoPanic"),
                          ("Generate_neg_main.cfg", "Deadlock"), ("Generate_neg_skip.cfg", "NothingElseTouched")):
         neg = vlib.tlc("MCGenerate", name, workers=1, timeout=600)
